@@ -803,8 +803,19 @@ impl OutstationSession {
             }
             FragmentType::Broadcast(mode) => {
                 self.state.deferred_read.clear();
-                self.process_broadcast(info.id, database, mode, request)
+                let action = self
+                    .process_broadcast(info.id, database, mode, request)
                     .await;
+
+                // Cancel unsolicited series if it's a DISABLE_UNSOLICITED, just like the addressed request does
+                if request.header.function == FunctionCode::DisableUnsolicited
+                    && action == BroadcastAction::Processed
+                {
+                    return Ok(UnsolicitedWaitResult::Complete(
+                        UnsolicitedResult::ReturnToIdle,
+                    ));
+                }
+
                 Ok(UnsolicitedWaitResult::ReadNext)
             }
             FragmentType::MalformedRequest(_, err) => {
@@ -1967,14 +1978,15 @@ impl OutstationSession {
         database: &mut DatabaseHandle,
         mode: BroadcastConfirmMode,
         request: Request<'_>,
-    ) {
+    ) -> BroadcastAction {
         self.state.last_broadcast_type = Some(mode);
         self.state.broadcast_reported = false;
         let action = self
             .process_broadcast_get_action(frame_id, database, request)
             .await;
         self.info
-            .broadcast_received(request.header.function, action)
+            .broadcast_received(request.header.function, action);
+        action
     }
 
     async fn process_broadcast_get_action(
